@@ -82,6 +82,8 @@ structure SInv (s : Sys) : Prop where
   ord : s.putLog.Pairwise SendOrd
   g1 : G1 s
   preCl : s.closed = true ↔ s.preClose.isSome = true
+  /-- only receivers are ever inside `get()` -/
+  getRecv : ∀ (t : Nat) (x : Task), s.tasks[t]? = some x → x.wait.inGet = true → x.code.isReceiver = true
   /-- `_flush_queue` tasks are never cancelled and exist only after `close()` -/
   fl : ∀ (t : Nat) (x : Task), s.tasks[t]? = some x → x.code.isFlusher = true → mCanc x = 0 ∧ s.closed = true
 
